@@ -22,11 +22,21 @@ Oracles
     remaining data, producers driven to the end) every stream that was not reset is complete.
   5 nothing raised out of a reactor call, no failure logged, the server does not drop the connection.
 
+Mechanism keys (narrow; findings/C29-*.md): `send-loop-dies-on-negative-window` (FlowControlError "window is -N"
+escaped + the account saw a negative window), `window-opened-by-settings-not-noticed` (stall on a stream whose most
+recent window increase was a SETTINGS frame), `window-update-does-not-wake-parked-send-loop` (stall that an unrelated
+empty response -- the probe -- is enough to end), `window-update-then-rst-in-one-segment` and
+`request-then-rst-in-one-segment-kills-send-loop` (StreamClosedError + the frames of the delivered segment).  A stall
+that the probe does not end keeps `stalled-with-open-window`, so seeded "does not unblock" mutants are not swallowed.
+
 Guards against false alarms: the final grant leaves slack (a paused producer is only resumed when
 window - queued > 0, and a client that has not seen END_STREAM keeps replenishing); oracle 4 is
 skipped while the transport is paused and for streams the client reset; zero-length DATA is never
 charged; the client's own API refusals (stream already closed ...) just skip that scheduler action;
-stream *ordering* is not checked at all (the `priority` package is absent: flat round-robin shim).
+stream *ordering* is not checked at all (the `priority` package is absent: flat round-robin shim); the scheduler
+keeps at most one SETTINGS frame un-ACKed (h2's client acknowledges one pending value per *setting* per ACK) and an
+empty END_STREAM frame on a negative window is booked by the monitor instead of the h2 client (h2's receiver rejects
+it, RFC 9113 6.9.1 allows it).
 The busy loop of the send loop while window-blocked is reported only as a counter (spin_iterations).
 """
 import os
@@ -558,9 +568,11 @@ class Session:
         while n < cap and not self.dead:
             if self.mini.idle():
                 break
+            before = sum(p.pos + p.finished for p in self.plans)
             self.mini.iterate()
             n += 1
-            if self.drain():
+            # progress = bytes on the wire, or a resource getting on with its plan (it may be writing empty chunks)
+            if self.drain() or sum(p.pos + p.finished for p in self.plans) != before:
                 quiet = 0
             else:
                 quiet += 1
@@ -676,6 +688,16 @@ class Session:
             else:
                 self.t.sim_pause_producer()
                 a = ("transport-pause",)
+        elif r < 0.9515 and len(self.sid_of) < self.nstreams:
+            # a request cancelled at once: HEADERS and RST_STREAM of the same stream in one segment
+            self.flush()
+            if self.open_stream():
+                k = len(self.sid_of) - 1
+                sid = self.sid_of[k]
+                if self.client_do(self.client.reset_stream, sid):
+                    self.client_reset.add(sid)
+                self.actions.append(("open+rst", k))
+                self.flush()
         elif r < 0.955 and live:
             sid = rng.choice(live)
             both = rng.random() < 0.3  # a client cancelling right after replenishing: both frames in one segment
@@ -716,7 +738,7 @@ class Session:
         if self.dead:
             return None
         self.ctx.count("liveness_checks")
-        parked = []  # (stream, info, bytes received): written-but-unsent data, windows open, nothing scheduled
+        parked = []  # (stream, info, bytes received): written-but-unsent data with windows open after pumping
         for sid in self.live_streams():
             p = self.plans[self.k_of[sid]]
             if p.lost:
@@ -726,7 +748,8 @@ class Session:
             info = {"stream": sid, "where": where, "written_by_app": p.written, "received": len(self.received[sid]),
                     "stream_window": w, "connection_window": self.acct.conn, "reactor_idle": self.mini.idle(),
                     "app_finished": p.finished, "plan": p.describe()}
-            waiting = p.registered and not p.finished and ((p.mode == "push" and p.paused) or (p.mode == "pull" and self.mini.idle()))
+            # after pump() an unfinished pull producer that was not paused would have produced: it is waiting too
+            waiting = p.registered and not p.finished and ((p.mode == "push" and p.paused) or p.mode == "pull")
             if w > 0 and self.acct.conn > 0 and (unsent > 0 or waiting):
                 info["producer_waiting"] = waiting
                 if sid in self.acct.by_settings:
@@ -734,11 +757,8 @@ class Session:
                     # WINDOW_UPDATE came since; H2Connection.dataReceived ignores RemoteSettingsChanged
                     self.violation("window-opened-by-settings-not-noticed", "a SETTINGS_INITIAL_WINDOW_SIZE increase opened the stream window but "
                                    "the blocked stream / paused producer is not resumed until some later WINDOW_UPDATE arrives", info)
-                elif unsent > 0 and self.mini.idle():
-                    parked.append((sid, info, len(self.received[sid])))
                 elif unsent > 0:
-                    self.violation("stalled-with-open-window", "body bytes written by the resource stay unsent although the stream "
-                                   "window, the connection window and the transport are open and the reactor was pumped to quiescence", info)
+                    parked.append((sid, info, len(self.received[sid])))
                 else:
                     self.violation("producer-not-resumed-with-open-window", "nothing is queued, windows and transport are open, but the "
                                    "stream's producer stays paused", info)
@@ -758,7 +778,8 @@ class Session:
                                    "connection window and the transport are open and nothing is scheduled (probe not possible)", info)
             else:
                 for sid, info, had in parked:
-                    if len(self.received[sid]) > had:
+                    # moved, or the loop ran and spent the (shared) connection window on another stream
+                    if len(self.received[sid]) > had or self.acct.conn <= 0 or self.acct.win.get(sid, 0) <= 0 or sid not in self.live_streams():
                         self.violation("window-update-does-not-wake-parked-send-loop", "WINDOW_UPDATE reopened the window of a stream with queued "
                                        "data but the parked send loop is not woken: the data stays unsent until an unrelated response "
                                        "(here: a probe request) happens to run the loop", info)
@@ -864,6 +885,20 @@ class Session:
                            "after SETTINGS_INITIAL_WINDOW_SIZE made a stream window negative the send loop raised FlowControlError "
                            "and stopped for good: queued data is lost and every stream of the connection stalls",
                            {"errors": negative[:3], "most_negative_window": self.acct.min_window_seen})
+        if self.datareceived_raised:
+            typ = self.datareceived_raised.split(":")[0]
+            frames = self.datareceived_chunk
+            key = "datareceived-raised-" + typ
+            rst = [j for j, (n, sid) in enumerate(frames) if n == "RstStreamFrame"]
+            if typ == "StreamClosedError" and any(n == "WindowUpdateFrame" and sid in (0, frames[j][1]) for j in rst for n, sid in frames[:j]):
+                key = "window-update-then-rst-in-one-segment"  # WindowUpdated is handled after h2 has already closed the stream
+            self.violation(key, "H2Connection.dataReceived raised: a real transport logs it and drops the whole connection "
+                           "(every other stream is lost)", {"error": self.datareceived_raised, "frames_in_segment": frames})
+            if key == "window-update-then-rst-in-one-segment":
+                # the StreamReset event of that segment was never handled: later uses of the half-forgotten stream are consequences
+                gone = set(sid for n, sid in frames if n == "RstStreamFrame")
+                errors = [e for e in errors if not (e.startswith("StreamClosedError:") and e.split(":")[1].strip().isdigit()
+                                                    and int(e.split(":")[1]) in gone)]
         cancelled = [e for e in errors if e.startswith("StreamClosedError:") and e.split(":")[1].strip().isdigit()
                      and int(e.split(":")[1]) in self.req_and_rst_together]
         if cancelled:
@@ -878,15 +913,6 @@ class Session:
                            {"errors": cancelled[:3], "streams": sorted(self.req_and_rst_together)})
         for e in errors:
             self.violation("server-error-" + e.split(":")[0], "an exception escaped from a reactor call / was logged by the server", {"error": e})
-        if self.datareceived_raised:
-            typ = self.datareceived_raised.split(":")[0]
-            frames = self.datareceived_chunk
-            key = "datareceived-raised-" + typ
-            rst = [j for j, (n, sid) in enumerate(frames) if n == "RstStreamFrame"]
-            if typ == "StreamClosedError" and any(n == "WindowUpdateFrame" and sid in (0, frames[j][1]) for j in rst for n, sid in frames[:j]):
-                key = "window-update-then-rst-in-one-segment"  # WindowUpdated is handled after h2 has already closed the stream
-            self.violation(key, "H2Connection.dataReceived raised: a real transport logs it and drops the whole connection "
-                           "(every other stream is lost)", {"error": self.datareceived_raised, "frames_in_segment": frames})
         if self.dead == "server closed the connection" or self.goaway:
             self.violation("server-closed-connection", "the server sent GOAWAY / closed the transport although the client made no protocol error", {})
         ctx.count("spin_iterations", self.spin)
@@ -950,7 +976,7 @@ def run(ctx):
     except ImportError as e:
         ctx.inconclusive("prerequisite missing: %s" % e)
         return
-    for i in ctx.cases(1000, 20000):
+    for i in ctx.cases(1000, 60000):
         run_session(ctx, i)
 
 
